@@ -158,18 +158,14 @@ Proof.
   - destruct (shape_eqb b a) eqn:F; [|reflexivity]. apply shape_eqb_eq in F. subst. now rewrite shape_eqb_refl in E.
 Qed.
 
-(* sptensor.innerprod(ktensor | ttensor): a receiver without entries answers whatever the operand's shape (C19-N21) *)
-Definition sptensor_innerprod_kt_stmt : Prop :=
-  forall s e u, guard_sptensor_innerprod_kt s e u = decide (pre_sptensor_innerprod s e u).
-Theorem sptensor_innerprod_kt_refuted : ~ sptensor_innerprod_kt_stmt.
-Proof. intros H. specialize (H [2; 3] true [3; 2]). vm_compute in H. discriminate. Qed.
-Theorem sptensor_innerprod_kt_partial s u : guard_sptensor_innerprod_kt s false u = decide (pre_sptensor_innerprod s false u).
-Proof. unfold guard_sptensor_innerprod_kt, guard_same_shape, pre_sptensor_innerprod, chk, decide. now rewrite shape_eqb_sym. Qed.
-(* the answered set, exactly: "answered although ill-formed" = no entry stored and different shapes (the trigger of C19-N21) *)
-Theorem sptensor_innerprod_kt_exact s e u : guard_sptensor_innerprod_kt s e u = decide (e || shape_eqb s u).
-Proof. destruct e; [reflexivity|]. unfold guard_sptensor_innerprod_kt, guard_same_shape, chk, decide. cbn [orb]. now rewrite shape_eqb_sym. Qed.
+(* sptensor.innerprod(ktensor | ttensor) (C19-N21 repaired): the shape comparison precedes the early return of a receiver without entries *)
+Theorem sptensor_innerprod_kt_decides s e u : guard_sptensor_innerprod_kt s e u = decide (pre_sptensor_innerprod s e u).
+Proof.
+  unfold guard_sptensor_innerprod_kt, guard_same_shape, pre_sptensor_innerprod, chk, decide, andthen.
+  rewrite (shape_eqb_sym u s). destruct (shape_eqb s u), e; reflexivity.
+Qed.
 
-(* sptensor.contract with the range test of fixes/C19-N22.diff: the checks come in another order than in tensor.contract *)
+(* sptensor.contract with its range test (db95721): the checks come in another order than in tensor.contract *)
 Theorem sptensor_contract_decides s i1 i2 : guard_sptensor_contract s i1 i2 = decide (pre_tensor_contract s i1 i2).
 Proof.
   apply decide_by. unfold guard_sptensor_contract, pre_tensor_contract. cbv zeta. okb.
@@ -179,23 +175,17 @@ Qed.
 Theorem sptensor_nvecs_decides s n : guard_sptensor_nvecs s n = decide (pre_mode s n).
 Proof. apply mode_decides. Qed.
 
-(* sptensor.scale: a receiver without entries answers before the factor's shape is compared (C19-N24) *)
-Definition sptensor_scale_stmt : Prop := forall s e f d, guard_sptensor_scale s e f d = decide (pre_sptensor_scale s e f d).
-Theorem sptensor_scale_refuted : ~ sptensor_scale_stmt.
-Proof. intros H. specialize (H [2; 3] true [5] [0]). vm_compute in H. discriminate. Qed.
-Theorem sptensor_scale_exact s e f d :
-  guard_sptensor_scale s e f d = decide (modes_ok (ndim s) d && (e || shape_eqb f (pickz s (np_sort d)))).
+(* sptensor.scale (C19-N24 repaired): a receiver without entries compares the factor's shape too *)
+Theorem sptensor_scale_decides s e f d : guard_sptensor_scale s e f d = decide (pre_sptensor_scale s e f d).
 Proof.
-  unfold guard_sptensor_scale. destruct (modes_ok (ndim s) d) eqn:Hm.
+  unfold guard_sptensor_scale, pre_sptensor_scale, pre_scale. destruct (modes_ok (ndim s) d) eqn:Hm.
   - apply modes_ok_spec in Hm as [Hr Hn]. rewrite (dimscheck_dims (ndim s) None d).
-    + cbn [andb]. destruct e; [reflexivity|]. cbn [orb]. destruct (shape_eqb f (pickz s (np_sort d))); reflexivity.
+    + cbn [andb]. destruct e, (shape_eqb f (pickz s (np_sort d))); reflexivity.
     + repeat split; auto; apply Hr; auto.
   - now rewrite dimscheck_rejects_bad_modes.
 Qed.
-Theorem sptensor_scale_partial s f d : guard_sptensor_scale s false f d = decide (pre_sptensor_scale s false f d).
-Proof. rewrite sptensor_scale_exact. reflexivity. Qed.
 
-(* ---- ktensor.update (guard = the code as repaired by fixes/C19-N25.diff) ---- *)
+(* ---- ktensor.update (guard = the validation pass of b9311d6) ---- *)
 Lemma strict_asc_combine l : forallb (fun p => fst p <? snd p) (combine l (tl l)) = strict_asc l.
 Proof.
   induction l as [|x l IH]; [reflexivity|]. destruct l as [|y l]; [reflexivity|].
